@@ -302,7 +302,8 @@ PROPS = {
         "assumptions": ["a subscription id is not re-issued before its EOSE (as in the property's quantifier); re-issued ones are not judged", "child indices are < number of children"],
     },
     "C09": {
-        "lean_modules": ["MocProps.C09"], "theorem_files": ["MocProps/C09.lean"],
+        "lean_modules": ["MocProps.C09", "MocProps.C09Trace", "MocProps.C09TraceCount"],
+        "theorem_files": ["MocProps/C09.lean", "MocProps/C09Trace.lean", "MocProps/C09TraceCount.lean"],
         "gen_groups": ["Merge"], "harness_prop": "merge", "driver_prop": "merge",
         "monitors": ["ok", "count"],
         "n_quick": 2500, "n_thorough": 25000, "thorough_seeds": 3,
@@ -312,8 +313,12 @@ PROPS = {
                       "child has not answered; the client receives something only when that completes the OLDEST row, and then exactly the aggregate of that row (sendOK_out, sendCount_out); "
                       "the aggregate of a row of replies with id x is one OK with id x accepting iff every child accepted (joinOK_verdict), whose text begins with the first rejecting child's "
                       "prefix+message (joinOK_reason); a COUNT aggregate carries a count no child exceeds (maxCount_spec); other keys are untouched (sendOK_table); replies are OK/COUNT shaped "
-                      "(sendOK_shape, sendCount_shape). Partial: 'exactly one reply per request over every interleaving, including the same id in flight twice' is runtime-validated by the "
-                      "trace monitor (classes ok-count, ok-early, count-count, count-early) on forced step orders, not yet proved as a trace theorem.",
+                      "(sendOK_shape, sendCount_shape). Trace level, for EVERY history and interleaving of a fresh session over n >= 1 children in which children answer only requests that were made "
+                      "(several in flight, repeated ids allowed): the client never receives more replies for an id than it made requests, nor more than any child has answered, and once every "
+                      "child has answered every request it has received exactly one reply per request and nothing is pending (merged_event_exactly_once, merged_count_exactly_once) - proved by "
+                      "showing that the pending table of one key IS a run of a one-key machine on the trace's projection (okRows_run, cntRows_run) and by a counting invariant of that machine "
+                      "(rows pending + replies = requests; answers of child j pending + replies = answers of child j; no stored row is complete; children fill oldest first: replies_exactly_once). "
+                      "Runtime-validated: the goroutine plumbing, by the trace monitor on forced step orders of the real handler.",
         "level_note": "Trusted: Lean kernel + standard axioms; go2lean; harness/driver; atomicity of the handleSend*/handleRecv* steps as for C08.",
         "assumptions": ["every child answers each EVENT with one OK and each COUNT with one COUNT (the property's quantifier), for the same key in request order"],
     },
